@@ -12,6 +12,7 @@ import Driver.Lacon
 import Driver.Rfs
 import Driver.UStackEng
 import Driver.LedgerEng
+import Driver.DynSlots
 import Driver.CLuCheck
 
 def readAll (h : IO.FS.Stream) : IO String := do
@@ -39,6 +40,7 @@ def main (args : List String) : IO UInt32 := do
   | ["ustack", iw, dw] => Drv.ustackMain (← readAll stdin) (iw.toInt?.getD 4) (dw.toInt?.getD 8)
   | ["clucheck"] => Drv.clucheckMain (← readAll stdin)
   | ["ledger"] => Drv.ledgerMain (← readAll stdin)
+  | ["dynslots"] => Drv.dynSlotsMain (← readAll stdin)
   | ["schedtrace"] => Drv.schedTraceMain (← readAll stdin)
   | ["schedexplore"] => Drv.schedExploreMain (← readAll stdin)
   | _ => IO.eprintln "usage: sludrv <engine>   (input on stdin)"; return 2
